@@ -14,7 +14,7 @@ RULE = ('clear blocks: for every PIN length 4..12, every position and every digi
         'random), with PANs of every length 13..19 (format 0; every digit value at each of the 12 account-number positions) '
         'and supplied fills 1, 2^63, 2^64-1, small and random 64-bit values (format 4); block compared with a construction '
         'from nibble lists, with the extracted nibble specification and with the model; rebuilt PIN compared with the input. '
-        'No fill supplied: secrets.randbits replaced by a recording stub (number of draws, bit count, where the drawn value '
+        'No fill supplied: secrets.randbits replaced by a recording stub (number of draws, bit count, where the drawn value; if the code draws elsewhere the blocks are judged by behaviour: one fill per object, different fills for separate blocks) '
         'lands, fill 0 counts as not supplied) and runs with the real generator. Encrypted forms: format 0 under TDES, format 4 '
         'under AES and under TDES, keys of 8/16/24 resp. 16/24/32 random bytes in upper/lower case hex; ciphertext compared '
         'with the reference cipher on the independently built block and with a direct call of cryptography; decrypt gives the '
@@ -796,6 +796,12 @@ def plan(case, io):
         blk = ok_bytes(io.get('to'))
         if blk is not None:
             out.append(('from', 'pin4_from %s' % hb(blk)))
+    elif k == 'f4draw' and not io.get('log') and 'blocks' in io:
+        # the code does not draw through secrets.randbits (e.g. secrets.token_bytes): judged by behaviour, as f4real
+        for i, b in enumerate(io.get('blocks', [])[1:3]):
+            blk = ok_bytes('OK ' + b)
+            if blk is not None and len(blk) == 16:
+                out.append(('to%d' % i, 'pin4_to %s %d' % (hs(case['pin']), int.from_bytes(blk[8:], 'big'))))
     elif k == 'f4draw':
         pin = hs(case['pin'])
         out.append(('to0', 'pin4_to %s %s' % (pin, case['draws'][0])))
@@ -901,6 +907,23 @@ def judge(case, io, mo):
         model('to', io['to'], 'pin%d_to' % fmt)
         if 'from' in io:
             model('from', io['from'], 'pin%d_from' % fmt)
+    elif k == 'f4draw' and 'err' not in io and not io.get('log'):
+        # no request reached secrets.randbits: another source of randomness is as good (the property asks for 64 fresh
+        # random bits per block, not for a particular function).  Judge what can be observed: the documented head, one
+        # fill per object, different fills for separately built blocks, the PIN comes back; the model places the SAME fill.
+        bl = [ok_bytes('OK ' + b) for b in io['blocks']]
+        head = ref_head4(case['pin'])
+        if any(b is None or len(b) != 16 or b[:8] != head for b in bl):
+            bad('f4-head-differs-from-construction', 'blocks %s do not start with (4, length, PIN, A fill) = %s and 8 more bytes' % (io['blocks'], head.hex()))
+        elif bl[0] != bl[1]:
+            bad('f4-block-changes-between-calls', 'to_bytes() twice on one object: %s then %s' % tuple(io['blocks'][:2]))
+        elif bl[0][8:] == bl[2][8:] and not (case.get('rv') is not None and bl[0][8:] == bytes(8)):
+            # (a supplied fill of 0 is outside the property: using the 0 or drawing instead are both fine)
+            bad('f4-fill-not-fresh', 'two blocks built without a supplied fill carry the same 64 random bits %s' % bl[0][8:].hex())
+        if io['pin'] != hs(case['pin']):
+            bad('f4-rebuilt-pin-differs', 'PIN rebuilt from the block bytes differs')
+        model('to0', 'OK ' + io['blocks'][1], 'pin4_to')
+        model('to1', 'OK ' + io['blocks'][2], 'pin4_to')
     elif k == 'f4draw':
         if 'err' in io:
             bad('f4-draw-raises', 'format 4 block without a supplied fill raised %s' % io['err'])
@@ -973,7 +996,9 @@ def judge(case, io, mo):
             model('dec', io['dec'], 'pin%d_dec' % fmt)
     elif k == 'dec':
         model('dec', io['dec'], 'pin%d_dec' % fmt)
-    return ps if ps else corr
+    # outside the property's domain (non-digit PINs, malformed keys, arbitrary blocks ...) the code's behaviour is not
+    # prescribed: a disagreement with the model there is not reported (a harmless rewrite may change it)
+    return ps if ps else (corr if dom else [])
 
 
 def nontrivial(case, io):
